@@ -134,6 +134,13 @@ def units(tier, seed):
                 for minimize in (False, True):
                     us.append({"algo": "gp", "n": n + 4, "budget": kind, "minimize": minimize, "target": 0 if minimize else 2, "size": size,
                                "step": "mutation-then-tournament", "max_dev": md, "max_execs": me})
+    # the parallel evaluator (its pool replaced by an in-process one): a batch of k individuals counts as k evaluations
+    for algo, size in (("hc", 2), ("hc", 4), ("gp", 3), ("rs", 1)):
+        for n in (3, 5, 8):
+            for kind in ("eval", "any(target,eval)"):
+                us.append({"algo": algo, "n": n, "budget": kind, "minimize": False, "target": 2 if kind != "eval" else None, "size": size,
+                           "step": ("mutation-then-tournament" if n == 5 else "default") if algo == "gp" else None, "max_dev": md, "max_execs": me,
+                           "evaluator": "parallel-inline"})
     # the budget SimpleGP's constructor builds from (target_fitness, max_evaluations), with SimpleGP's own step and tracker
     for n in (5, 9):
         for target in (None, 0, 0.0, 2, 1.0):
@@ -180,6 +187,10 @@ def run_unit(unit) -> UnitResult:
             t1 = SingleObjectiveProgressTracker(first_problem)
             RandomSearch(first_problem, EvaluationBudget(5), StubRepresentation(2), random=src, tracker=t1).search()
             tracker = SingleObjectiveProgressTracker(problem)
+        elif unit.get("evaluator") == "parallel-inline":
+            from geneticengine.evaluation.parallel import ParallelEvaluator
+
+            tracker = SingleObjectiveProgressTracker(problem, ParallelEvaluator())
         else:
             tracker = SingleObjectiveProgressTracker(problem, SequentialEvaluator())
         checks = []
@@ -224,6 +235,50 @@ def run_unit(unit) -> UnitResult:
         alg.search()
         return checks, list(fit_log), tracker.get_number_evaluations(), list(handed), list(alg.budget.snaps)
 
+    real_pool = None
+    if unit.get("evaluator") == "parallel-inline":
+        import pathos.multiprocessing as pm
+
+        class InlinePool:  # same contract as the pool ParallelEvaluator asks for, tasks run in this process in input order
+            def __init__(self, nodes=None, *a, **k):
+                if nodes is not None and nodes < 1:
+                    raise ValueError("Number of processes must be at least 1")
+
+            def __enter__(self):
+                return self
+
+            def __exit__(self, *a):
+                return False
+
+            def map(self, f, items):
+                return [f(x) for x in items]
+
+            def imap(self, f, items):
+                return iter(self.map(f, items))
+
+            uimap = imap
+
+            def amap(self, f, items):
+                out = self.map(f, items)
+                return type("R", (), {"get": lambda self, timeout=None: out})()
+
+            def close(self):
+                pass
+
+            join = clear = terminate = restart = close
+
+        real_pool = pm.ProcessingPool
+        pm.ProcessingPool = InlinePool
+    try:
+        return _run_unit_body(unit, r, run, algo, n, size, minimize)
+    finally:
+        if real_pool is not None:
+            import pathos.multiprocessing as pm
+
+            pm.ProcessingPool = real_pool
+
+
+def _run_unit_body(unit, r, run, algo, n, size, minimize) -> UnitResult:
     st = ExploreStats()
     terminated = 0
     capped_witness = None
